@@ -50,11 +50,11 @@ def run(ctx, replay):
         "samples": [s for sm in sums for s in sm.get("samples", [])][:3],
         "evaluations": n,
         "distinct_nontrivial": sum(1 for c in cases if c["x"] != c["y"]) + sum(s.get("events", 0) for s in s2),
-        "rule": "all ordered pairs over a pool of 43 inputs: re-spellings (nil/empty env, plugins, matrix; short/canonical source; empty/null "
+        "rule": "all ordered pairs over the pool of MC_Payload (%d inputs): repository-URL spellings, anonymous + named dimensions, case-distinct names, leftover keys named like fields, history independence (a decoy step signed first with the same env map); also re-spellings (nil/empty env, plugins, matrix; short/canonical source; empty/null "
                 "config), single-point variants (command, repo, algorithm, matrix, plugin config kinds incl. 1 vs \"1\", false, 0, \"\"), "
                 "boundary shifts (command/repo, env name/value, adjacent plugins, source/config), step env vs pipeline env of the same name, "
                 "env::A vs a step variable named env::A; plus generated command-step documents parsed twice with the keys of every mapping "
-                "shuffled (document key order). Non-trivial = pairs of different inputs + permuted document pairs.",
+                "shuffled (document key order). Non-trivial = pairs of different inputs + permuted document pairs." % int(round(len(cases) ** 0.5)),
         "exhaustive": True,
         "must_collide_pairs": sum(1 for c in cases if c["same"] and c["x"] != c["y"]),
         "trace_events_rejected": len(bad),
